@@ -275,11 +275,14 @@ def _expected_row(ctx, sr, h, ns, r, reject, labels, k_filter):
     return out, b, L
 
 
-def case_destripe(ctx, nproc, order, ns2add, reject, k_filter, max_batches, ns_min, append=False):
+def case_destripe(ctx, nproc, order, ns2add, reject, k_filter, max_batches, ns_min, append=False, stale=False):
     import ibldsp.voltage as v
     import spikeglx
     F, ns, nc = _mk(ctx, max_batches, ns_min)
-    old_rows, old_b, fo = _old_output(ctx, F, nc) if append else (0, 0, None)
+    old_rows, old_b, fo = _old_output(ctx, F, nc) if (append or stale) else (0, 0, None)
+    if stale:
+        # a NON-append run onto the output of an earlier run (possibly longer): nothing of it may survive
+        old_rows, old_b, fo = 0, 0, None
     _ORDER[0] = order
     labels = np.array([0.0, 3.0, 0.0]) if reject else None
     _LABELS[0] = labels
@@ -370,6 +373,8 @@ def cases(tier):
                                                                      "max_batches": mb, "ns_min": 1024 if P == 1 else 2100}, timeout_s=3400, max_paths=400))
     cs.append(Case("destripe_P2_append", "case_destripe", {"nproc": 2, "order": None, "ns2add": 0, "reject": True, "k_filter": True,
                                                            "max_batches": 6, "ns_min": 8192, "append": True}, timeout_s=3400, max_paths=400))
+    cs.append(Case("destripe_P1_over_stale_output", "case_destripe", {"nproc": 1, "order": None, "ns2add": 0, "reject": True, "k_filter": True,
+                                                                     "max_batches": 4, "ns_min": 1024, "stale": True}, timeout_s=3400, max_paths=400))
     cs.append(Case("destripe_P2_pad_car_noreject", "case_destripe", {"nproc": 2, "order": [1, 0], "ns2add": 3, "reject": False, "k_filter": False,
                                                                       "max_batches": 6, "ns_min": 2100}, timeout_s=3400, max_paths=400))
     return cs
@@ -418,8 +423,11 @@ class Par:
 v.Parallel = Par; v.delayed = lambda f: (lambda *a, **k: (f, a, k))
 outs = {{}}
 append = {params.get('append', False)}
+stale = {params.get('stale', False)}
 def run(P):
     o = d / f'out{{P}}'; o.mkdir(exist_ok=True)
+    if stale:          # the output of an earlier, longer run is already there
+        np.full(((ns + ns2add) * 2 + 1000, nc), 77, dtype=np.int16).tofile(o / 'x.bin')
     v.decompress_destripe_cbin(d / 'x.imec0.ap.bin', output_file=o / 'x.bin', nbatch=NB, nprocesses=P, ns2add=ns2add, reject_channels=reject, k_filter=k_filter)
     return np.fromfile(o / 'x.bin', dtype=np.int16), o
 if append:
